@@ -18,6 +18,7 @@ KEYTYPES = {
     "basic-key": refdt.basic_key,
     "identifier": refdt.identifier,
     "ipaddr-or-hostname": refdt.ipaddr_or_hostname,
+    "zcv.dt.basickey": refdt.basic_key,
 }
 
 SEMANTIC_RULES = (
